@@ -1,18 +1,85 @@
 (* C16 - Carousel late join: a receiver starting at any packet still gets every object. *)
-From FluteV Require Import Model.SenderCtl Model.ObjRecv Model.Recv Spec.RecvSpec Spec.SessionSpec Spec.SenderSpec
-  Proofs.SenderProofs Proofs.RecvProofs Proofs.SessionProofs.
+From FluteV Require Import Model.Partition Model.BlockEnc Model.SenderCtl Model.ObjRecv Model.Recv Spec.RecvSpec Spec.SessionSpec Spec.SenderSpec
+  Spec.C08Spec Proofs.BlockEncProofs Proofs.SenderProofs Proofs.RecvProofs Proofs.SessionProofs Proofs.C08Full Proofs.C02Full Proofs.C01Full.
 Open Scope N_scope.
 
-(* Full statement (kept visible): for a carousel session and every join offset, after the suffix of
-   the packet stream starting there (two further full cycles of the objects and the FDT), every
-   carouselled object is completed byte-exact (P_C02_object with the recoverability premise
-   computed on the suffix).  Evaluated on every run for every join offset within the first cycle
-   (all schemes, in-band / FDT-only OTI and CENC, both publish modes, carousel modes); proved so
-   far through the mechanisms below (partial). *)
-Definition C16_late_join_delivers_full : Prop :=
-  forall (recoverable : bool) (content : list N) (ws : list wrec),
-    True -> P_C02_object recoverable content ws = true.
+(* Object-level late-join theorem, PROVED for the No-Code scheme without content encoding
+   (Proofs/C01Full.v; same sender, wire bridge [to_apkt], receiver and premises as C01_clean_channel_nocode).
+   Carousel transfers carry no close-object flag (c_closable c = false; every transfer of the model emits the
+   same packet list [wire_pkts] = map (to_apkt toi) of the packets of enc_run).  A receiver that has the FDT
+   entry of the object and joins at ANY packet offset j of one cycle - in the middle of a block, of an
+   interleaving window, after the end (j >= length: the empty suffix) - receives the rest of that cycle and
+   one whole further cycle, in order: the object is Completed and its writer got exactly: open, writes
+   concatenating to [content], one complete ([delivered], the conclusion of C01_clean_channel_nocode).  So
+   a late joiner is served within two cycles of the object.
+   Not covered: the other FEC schemes, content encodings, the empty object (D37, fixed), and the session level
+   (the FDT instance itself must be received within the carousel too, Model/Recv.v; evaluated on every run
+   for every join offset). *)
+Theorem C16_late_join_delivers_nocode :
+  forall rep raptor_src c content oti E toi max fid files inst md5,
+  c_fec c = NoCode -> filedesc_accepts c = true -> c_tlen c = lenN content -> 0 < c_tlen c ->
+  (1 <= c_window c)%nat ->
+  c_e c < 65536 -> nocode_esi_fits c = true ->
+  oti_matches c oti -> fdt_entry_for files inst toi oti (c_tlen c) md5 ->
+  writer_accepts E toi -> writes_succeed E toi -> md5_good E content md5 ->
+  c_tlen c <= max -> nb_blocks_of oti (c_tlen c) <= 4097 ->
+  c_closable c = false ->
+  forall j : nat,
+  let pkts := wire_pkts rep raptor_src c content toi in
+  delivered E fid files inst toi max content (skipn j pkts ++ pkts).
+Proof. exact late_join_delivered. Qed.
+Print Assumptions C16_late_join_delivers_nocode.
 
+(* more generally: ANY list of genuine packets without the close-object flag that contains every packet of
+   one transfer (as a set; hence any reordering, any duplication, any number of partial or whole cycles
+   around them) is delivered *)
+Theorem C16_any_superset_of_a_cycle_delivers_nocode :
+  forall rep raptor_src c content oti E toi max fid files inst md5,
+  c_fec c = NoCode -> filedesc_accepts c = true -> c_tlen c = lenN content -> 0 < c_tlen c ->
+  (1 <= c_window c)%nat ->
+  c_e c < 65536 -> nocode_esi_fits c = true ->
+  oti_matches c oti -> fdt_entry_for files inst toi oti (c_tlen c) md5 ->
+  writer_accepts E toi -> writes_succeed E toi -> md5_good E content md5 ->
+  c_tlen c <= max -> nb_blocks_of oti (c_tlen c) <= 4097 ->
+  forall l, Forall (fun q => genuine_pkt oti content q = true) l ->
+            Forall (fun q => a_close_obj q = false) l ->
+            incl (wire_pkts rep raptor_src c content toi) l ->
+  delivered E fid files inst toi max content l.
+Proof. exact superset_delivered. Qed.
+Print Assumptions C16_any_superset_of_a_cycle_delivers_nocode.
+
+(* a suffix of a cycle, then a whole LAST transfer (close-object flag on its last packet): same conclusion *)
+Theorem C16_late_join_then_last_transfer_nocode :
+  forall rep raptor_src c content oti E toi max fid files inst md5,
+  c_fec c = NoCode -> filedesc_accepts c = true -> c_tlen c = lenN content -> 0 < c_tlen c ->
+  (1 <= c_window c)%nat ->
+  c_e c < 65536 -> nocode_esi_fits c = true ->
+  oti_matches c oti -> fdt_entry_for files inst toi oti (c_tlen c) md5 ->
+  writer_accepts E toi -> writes_succeed E toi -> md5_good E content md5 ->
+  c_tlen c <= max -> nb_blocks_of oti (c_tlen c) <= 4097 ->
+  forall pre, Forall (fun q => genuine_pkt oti content q = true) pre ->
+              Forall (fun q => a_close_obj q = false) pre ->
+  delivered E fid files inst toi max content (pre ++ wire_pkts rep raptor_src c content toi).
+Proof. exact prefix_then_transfer_delivered. Qed.
+Print Assumptions C16_late_join_then_last_transfer_nocode.
+
+(* non-vacuity: the 5-byte, 2-block object of C01/C02 in a carousel with two interleaved blocks
+   (cycle = (0,0) (1,0) (0,1)): every join offset is delivered, by computation and by the theorem *)
+Example C16_example_late_join :
+  let w := wire_pkts no_rep no_rsrc (ex_cfg false) ex_content 7 in
+  map pid_of w = [(0, 0); (1, 0); (0, 1)]
+  /\ forallb (fun j => match summary 7 (receive env_ok 1 ex_files None 7 1000 (skipn j w ++ w)) with
+                       | (Completed, [CallOpen true; CallWrite [1; 2; 3; 4] true; CallWrite [5] true; CallComplete]) => true
+                       | _ => false end) [0; 1; 2; 3; 4]%nat = true
+  /\ summary 7 (receive env_ok 1 ex_files None 7 1000 (skipn 1 w)) = (Receiving, [CallOpen true]).
+Proof. vm_compute. repeat split. Qed.
+
+Example C16_example_by_theorem : forall j,
+  let w := wire_pkts no_rep no_rsrc (ex_cfg false) ex_content 7 in
+  delivered env_ok 1 ex_files None 7 1000 ex_content (skipn j w ++ w).
+Proof. exact ex_late_join_by_theorem. Qed.
+
+(* The mechanisms the session-level statement rests on: *)
 (* (1) a carousel object is never finished: it is queued again after every transfer *)
 Theorem C16_carousel_object_never_expires : forall f,
   is_expired f = true <-> (o_max (f_o f) <= t_count (f_t f) /\ o_car (f_o f) = CNone).
